@@ -352,4 +352,201 @@ theorem reduce1d_count_threads (arr : List Val) (skipna : Bool) (threads : Nat) 
     | cons c cs ih => simp [ih]
 
 
+/-! ## `reduce_1d("max" / "min")` with threads, end to end (float view) -/
+
+theorem chunkRes_num (comb : Val → Val → Val) (hc : CombOK comb) (y : Int) (ys : List Int) :
+    ∃ m, chunkRes comb .nan (y :: ys) = .num m := foldl_num_closed comb hc y ys
+
+/-- folding the non-null chunk results into an accumulator = folding all the numbers -/
+theorem fold_chunk_results (comb : Val → Val → Val) (hc : CombOK comb) (a : Int) (cs : List (List Int)) :
+    (nonNull .f (cs.map (chunkRes comb .nan))).foldl comb (.num a) = (cs.flatten.map Val.num).foldl comb (.num a) := by
+  induction cs generalizing a with
+  | nil => rfl
+  | cons c cs ih =>
+    cases c with
+    | nil =>
+      simp only [List.map_cons, chunkRes, List.flatten_cons, List.nil_append]
+      have : nonNull .f (Val.nan :: cs.map (chunkRes comb .nan)) = nonNull .f (cs.map (chunkRes comb .nan)) := by
+        simp [nonNull, isNull, List.filter_cons]
+      rw [this]; exact ih a
+    | cons y ys =>
+      obtain ⟨m, hm⟩ := chunkRes_num comb hc y ys
+      simp only [List.map_cons, List.flatten_cons, List.map_append, List.foldl_append]
+      have : nonNull .f (chunkRes comb .nan (y :: ys) :: cs.map (chunkRes comb .nan))
+          = chunkRes comb .nan (y :: ys) :: nonNull .f (cs.map (chunkRes comb .nan)) := by
+        rw [hm]; simp [nonNull, isNull, List.filter_cons]
+      rw [this, List.foldl_cons]
+      have hstep : List.foldl comb (Val.num a) (Val.num y :: List.map Val.num ys) = comb (.num a) (chunkRes comb .nan (y :: ys)) := by
+        simp only [List.foldl_cons, chunkRes]
+        rw [foldl_comb_assoc comb hc a y ys]
+      rw [hstep, hm]
+      obtain ⟨c', hc', _⟩ := hc.num_closed a m
+      rw [hc']
+      exact ih c'
+
+/-- reducing the chunk results (null-skipping, seeded by the first result) = the result of the whole -/
+theorem accOf_chunk_results (comb : Val → Val → Val) (hc : CombOK comb) (d : Val) (cs : List (List Int)) :
+    accOf comb id d (nonNull .f (cs.map (chunkRes comb .nan))) = (if cs.flatten = [] then d else chunkRes comb .nan cs.flatten) := by
+  induction cs with
+  | nil => simp [nonNull, accOf]
+  | cons c cs ih =>
+    cases c with
+    | nil =>
+      have : nonNull .f ((([] : List Int) :: cs).map (chunkRes comb .nan)) = nonNull .f (cs.map (chunkRes comb .nan)) := by
+        simp [chunkRes, nonNull, isNull, List.filter_cons]
+      rw [this, ih]; simp
+    | cons y ys =>
+      obtain ⟨m, hm⟩ := chunkRes_num comb hc y ys
+      have : nonNull .f (((y :: ys) :: cs).map (chunkRes comb .nan))
+          = chunkRes comb .nan (y :: ys) :: nonNull .f (cs.map (chunkRes comb .nan)) := by
+        simp only [List.map_cons]; rw [hm]; simp [nonNull, isNull, List.filter_cons]
+      rw [this]
+      simp only [accOf, id, List.flatten_cons, List.cons_append, reduceCtorEq, if_false]
+      rw [hm, fold_chunk_results comb hc m cs]
+      simp only [chunkRes, List.map_append, List.foldl_append]
+      have : (ys.map Val.num).foldl comb (.num y) = .num m := hm
+      rw [this]
+
+theorem accOf_nums (comb : Val → Val → Val) (a0 : Val) (rest : List Val) :
+    accOf comb id a0 ((numsOf (a0 :: rest)).map Val.num) = chunkRes comb .nan (numsOf (a0 :: rest)) := by
+  cases hn : numsOf (a0 :: rest) with
+  | nil =>
+    simp only [List.map_nil, accOf, chunkRes]
+    cases a0 with
+    | nan => rfl
+    | num n => simp [numsOf] at hn
+  | cons y ys => simp [accOf, chunkRes]
+
+theorem nbReduce_chunk (comb : Val → Val → Val) (c : List Val) (hc : c ≠ []) :
+    nbReduce .f comb c true none = some (chunkRes comb .nan (numsOf c)) := by
+  cases c with
+  | nil => exact absurd rfl hc
+  | cons a0 rest => rw [nbReduce_skipna, nonNull_f, accOf_nums]
+
+theorem mapM_of_forall {α β : Type} (g : α → Option β) (g' : α → β) (l : List α) (h : ∀ c ∈ l, g c = some (g' c)) :
+    l.mapM g = some (l.map g') := by
+  induction l with
+  | nil => rfl
+  | cons x xs ih =>
+    rw [List.mapM_cons, h x (List.mem_cons_self ..), ih (fun c hc => h c (List.mem_cons_of_mem _ hc))]
+    rfl
+
+/-- **`reduce_1d("max" / "min")` with any number of threads** (float view, `skipna=True`, no empty chunk): the
+null-skipping reduction of the per-chunk results is the extremum of all non-null values - NaN when there is none -/
+theorem reduce1d_extremum_threads (op : NanOp) (hop : op = .max ∨ op = .min) (arr : List Val) (threads : Nat) (ht : 0 < threads)
+    (harr : arr ≠ []) (hne : ∀ c ∈ arraySplit arr threads, c ≠ []) :
+    reduce1d modelROps op .f arr true threads = some (chunkRes (op.fn modelROps .f) .nan (numsOf arr)) := by
+  have hok : CombOK (op.fn modelROps .f) := by
+    rcases hop with rfl | rfl
+    · exact rops_max_ok .f
+    · exact rops_min_ok .f
+  have hcount : (op = NanOp.count) = False := by rcases hop with rfl | rfl <;> simp
+  have hinit : op.initial = none := by rcases hop with rfl | rfl <;> rfl
+  have hchunk : op.chunkOp = op := by rcases hop with rfl | rfl <;> rfl
+  unfold reduce1d
+  simp only [hcount, if_false, hinit, hchunk]
+  by_cases h1 : threads = 1
+  · simp only [h1, if_true]
+    exact nbReduce_chunk _ arr harr
+  · have h0 : threads ≠ 0 := by omega
+    simp only [h1, h0, if_false]
+    rw [mapM_of_forall _ (fun c => chunkRes (op.fn modelROps .f) .nan (numsOf c)) _
+      (fun c hc => nbReduce_chunk _ c (hne c hc))]
+    simp only
+    have hparts_ne : (arraySplit arr threads).map (fun c => chunkRes (op.fn modelROps .f) .nan (numsOf c)) ≠ [] := by
+      intro h
+      exact arraySplit_ne_nil arr threads ht (List.map_eq_nil_iff.mp h)
+    cases hp : (arraySplit arr threads).map (fun c => chunkRes (op.fn modelROps .f) .nan (numsOf c)) with
+    | nil => exact absurd hp hparts_ne
+    | cons p0 prest =>
+      rw [nbReduce_skipna, ← hp]
+      have hmm : (arraySplit arr threads).map (fun c => chunkRes (op.fn modelROps .f) .nan (numsOf c))
+          = ((arraySplit arr threads).map numsOf).map (chunkRes (op.fn modelROps .f) .nan) := by
+        rw [List.map_map]; rfl
+      rw [hmm, accOf_chunk_results _ hok]
+      have hflat : ((arraySplit arr threads).map numsOf).flatten = numsOf arr := by
+        rw [← numsOf_flatten, arraySplit_flatten arr threads ht]
+      rw [hflat]
+      by_cases hnil : numsOf arr = []
+      · simp only [hnil, if_true, chunkRes]
+        -- the first chunk result is the null marker
+        cases hs : arraySplit arr threads with
+        | nil => exact absurd hs (arraySplit_ne_nil arr threads ht)
+        | cons c0 crest =>
+          rw [hs] at hp
+          simp only [List.map_cons, List.cons.injEq] at hp
+          have : numsOf c0 = [] := by
+            have hsub : ∀ x ∈ numsOf c0, x ∈ numsOf arr := by
+              intro x hx
+              rw [← hflat, hs]
+              simp only [List.map_cons, List.flatten_cons]
+              exact List.mem_append_left _ hx
+            cases hc0 : numsOf c0 with
+            | nil => rfl
+            | cons y ys =>
+              have := hsub y (by rw [hc0]; exact List.mem_cons_self ..)
+              rw [hnil] at this; cases this
+          rw [← hp.1, this]; rfl
+      · simp only [hnil, if_false]
+
+theorem rops_max_eq_vmaxC (a b : Int) : ROps.max .f (.num a) (.num b) = vmaxC (.num a) (.num b) := by
+  simp only [ROps.max, vmaxC, Val.ge, Val.gt]
+  by_cases h : a ≥ b
+  · have : ¬ b > a := by omega
+    simp [h, this]
+  · have : b > a := by omega
+    simp [h, this]
+
+theorem rops_min_eq_vminC (a b : Int) : ROps.min .f (.num a) (.num b) = vminC (.num a) (.num b) := by
+  simp only [ROps.min, vminC, Val.le, Val.lt]
+  by_cases h : a ≤ b
+  · have : ¬ b < a := by omega
+    simp [h, this]
+  · have : b < a := by omega
+    simp [h, this]
+
+theorem foldl_congr_nums (f g : Val → Val → Val) (hf : CombOK f) (hfg : ∀ a b : Int, f (.num a) (.num b) = g (.num a) (.num b))
+    (x : Int) (xs : List Int) : (xs.map Val.num).foldl f (.num x) = (xs.map Val.num).foldl g (.num x) := by
+  induction xs generalizing x with
+  | nil => rfl
+  | cons y ys ih =>
+    simp only [List.map_cons, List.foldl_cons]
+    obtain ⟨c, hc, _⟩ := hf.num_closed x y
+    rw [← hfg, hc, ih c]
+
+/-- ... and that is NumPy's `nanmax` / `nanmin` of the array (`specNan`) -/
+theorem chunkRes_eq_specNan (op : NanOp) (hop : op = .max ∨ op = .min) (arr : List Val) (harr : arr ≠ []) :
+    chunkRes (op.fn modelROps .f) .nan (numsOf arr) = specNan op .f arr := by
+  cases arr with
+  | nil => exact absurd rfl harr
+  | cons a0 rest =>
+    rcases hop with rfl | rfl
+    · simp only [specNan, nonNull_f, NanOp.fn, modelROps, List.headD_cons]
+      cases hn : numsOf (a0 :: rest) with
+      | nil =>
+        simp only [chunkRes, List.map_nil, accOf]
+        cases a0 with
+        | nan => rfl
+        | num n => simp [numsOf] at hn
+      | cons y ys =>
+        simp only [chunkRes, List.map_cons, accOf, id]
+        exact foldl_congr_nums _ _ (rops_max_ok .f) rops_max_eq_vmaxC y ys
+    · simp only [specNan, nonNull_f, NanOp.fn, modelROps, List.headD_cons]
+      cases hn : numsOf (a0 :: rest) with
+      | nil =>
+        simp only [chunkRes, List.map_nil, accOf]
+        cases a0 with
+        | nan => rfl
+        | num n => simp [numsOf] at hn
+      | cons y ys =>
+        simp only [chunkRes, List.map_cons, accOf, id]
+        exact foldl_congr_nums _ _ (rops_min_ok .f) rops_min_eq_vminC y ys
+
+/-- `reduce_1d("max" / "min")` = NumPy's `nanmax` / `nanmin`, for any thread count without an empty chunk -/
+theorem reduce1d_extremum_eq_numpy (op : NanOp) (hop : op = .max ∨ op = .min) (arr : List Val) (threads : Nat) (ht : 0 < threads)
+    (harr : arr ≠ []) (hne : ∀ c ∈ arraySplit arr threads, c ≠ []) :
+    reduce1d modelROps op .f arr true threads = some (specNan op .f arr) := by
+  rw [reduce1d_extremum_threads op hop arr threads ht harr hne, chunkRes_eq_specNan op hop arr harr]
+
+
 end GV.C20
